@@ -40,7 +40,7 @@ import vlib
 from props import c01, c03
 
 ID = "C04"
-GEN = ["Dist", "Leaves", "Combinators"]
+GEN = ["Dist", "Leaves", "Combinators", "Planar", "Params"]
 RULE = c03.RULE + (" [C04 re-runs C03's correspondence: the generated Transformed/leaf/Chain definitions its theorems are about are tied there; "
                    "the quadrature/KS oracle (search) runs on the real code when a tie breaks]")
 TRUSTED = c03.TRUSTED + [
@@ -66,6 +66,10 @@ def ks_dkw(n):
 
 def corr(c, tier, rng):
     c03.corr(c, tier, rng)
+    # Planar layers (generated kernels incl. the invertibility constraint get_act_scale) — the layer type whose normalisation
+    # rests on C11.planar_constraint, re-exported in Props/C04 as planar_layer_invertible
+    from props import planar_tri
+    planar_tri.corr_planar(c, tier, rng)
 
 
 # ------------------------------------------------------------------ grids
@@ -361,6 +365,17 @@ def configurations(tier, rng):
                         cond = jnp.asarray(seeds[1][2 * ci:2 * ci + 2]) if cd else None
                         return fl, cond, False
                     yield f"{name}|invert={invert}|cond={cd}#{ci}", d, build
+    # planar layers with weights well away from the 0.01·N(0,1) initialisation (|w| up to 3): the invertibility constraint matters here
+    for i in range(4 if tier == "quick" else 16):
+        s = rng.randrange(2 ** 30)
+
+        def buildp(s=s):
+            r = random.Random(s)
+            w = r.choice([-1, 1]) * r.uniform(1.5, 3.0)
+            pl = eqx.tree_at(lambda p: p.params, B.Planar(jr.PRNGKey(0), dim=1, negative_slope=r.choice([0.1, 0.5, 1.0])),
+                             jnp.asarray([w, r.uniform(-1, 1), r.uniform(-0.5, 0.5)]))
+            return Transformed(StandardNormal((1,)), pl if r.random() < 0.5 else B.Invert(pl)), None, False
+        yield f"hand:planar-large-w#{i}", 1, buildp
     n_hand = 12 if tier == "quick" else 60
     for i in range(n_hand):
         s = rng.randrange(2 ** 30)
